@@ -18,7 +18,8 @@ KINDS = ["K_LEAF", "K_LEAFV", "K_JUST", "K_JUST_FROM", "K_JVOD", "K_SIR", "K_SCH
          "K_THEN", "K_E2V", "K_V2E", "K_UPON_ERROR", "K_UPON_DONE", "K_LET_VALUE", "K_LET_ERROR", "K_LET_DONE", "K_FINALLY",
          "K_VIA", "K_TYPED_VIA", "K_ON", "K_SEQUENCE", "K_WHEN_ALL", "K_WHEN_ANY", "K_STOP_WHEN", "K_UNSTOPPABLE", "K_MATDEMAT",
          "K_DONE_AS_OPT", "K_RETRY_WHEN", "K_REPEAT", "K_LVWSS", "K_LVWST", "K_LVW", "K_ANY", "K_ALLOCATE", "K_DEFER",
-         "K_INTO_VARIANT", "K_WITH_QUERY", "K_WITH_ALLOC", "K_VARIANT", "K_LEAF_AI", "K_LEAF_ND"]
+         "K_INTO_VARIANT", "K_WITH_QUERY", "K_WITH_ALLOC", "K_VARIANT", "K_LEAF_AI", "K_LEAF_ND",
+         "K_WAR", "K_NEST", "K_NEST_CLOSED"]
 
 
 class Node:
@@ -64,7 +65,7 @@ class Gen:
     def can_error(n):
         if n.kind in ("K_JUST", "K_JVOD", "K_SIR", "K_SCHEDULE", "K_ERRREF"):
             return False
-        if n.kind in ("K_UNSTOPPABLE", "K_ALLOCATE", "K_WITH_QUERY", "K_MATDEMAT", "K_LVWST", "K_LVWSS", "K_LVW", "K_DEFER"):
+        if n.kind in ("K_UNSTOPPABLE", "K_ALLOCATE", "K_WITH_QUERY", "K_WITH_ALLOC", "K_NEST", "K_MATDEMAT", "K_LVWST", "K_LVWSS", "K_LVW", "K_DEFER"):
             return Gen.can_error(n.children[-1])
         if n.kind in ("K_VIA", "K_TYPED_VIA", "K_FINALLY", "K_STOP_WHEN"):
             return Gen.can_error(n.children[0])
@@ -94,11 +95,12 @@ class Gen:
             opts = [("K_THEN", 5), ("K_E2V", 2), ("K_UPON_ERROR", 3), ("K_UPON_DONE", 3), ("K_LET_VALUE", 4), ("K_LET_ERROR", 3), ("K_LET_DONE", 3),
                     ("K_FINALLY", 4), ("K_VIA", 3), ("K_TYPED_VIA", 2), ("K_ON", 3), ("K_SEQUENCE", 3), ("K_WHEN_ALL", 6), ("K_WHEN_ANY", 3),
                     ("K_STOP_WHEN", 4), ("K_UNSTOPPABLE", 2), ("K_MATDEMAT", 3), ("K_DONE_AS_OPT", 2), ("K_RETRY_WHEN", 3), ("K_LVWSS", 3),
-                    ("K_LVWST", 1), ("K_LVW", 2), ("K_ANY", 3), ("K_ALLOCATE", 2), ("K_DEFER", 2), ("K_INTO_VARIANT", 1), ("K_WITH_QUERY", 2)]
+                    ("K_LVWST", 1), ("K_LVW", 2), ("K_ANY", 3), ("K_ALLOCATE", 2), ("K_DEFER", 2), ("K_INTO_VARIANT", 1), ("K_WITH_QUERY", 2),
+                    ("K_WAR", 3), ("K_NEST", 2), ("K_NEST_CLOSED", 1), ("K_WITH_ALLOC", 2)]
         else:
             opts = [("K_V2E", 4), ("K_LET_VALUE", 2), ("K_LET_ERROR", 2), ("K_LET_DONE", 2), ("K_FINALLY", 3), ("K_VIA", 2), ("K_ON", 2), ("K_SEQUENCE", 4),
                     ("K_WHEN_ANY", 2), ("K_STOP_WHEN", 3), ("K_UNSTOPPABLE", 1), ("K_MATDEMAT", 2), ("K_RETRY_WHEN", 2), ("K_REPEAT", 4), ("K_LVWSS", 2),
-                    ("K_ANY", 2), ("K_ALLOCATE", 1), ("K_DEFER", 1), ("K_WITH_QUERY", 1)]
+                    ("K_ANY", 2), ("K_ALLOCATE", 1), ("K_DEFER", 1), ("K_WITH_QUERY", 1), ("K_NEST", 1), ("K_NEST_CLOSED", 1), ("K_WITH_ALLOC", 1)]
         if cp:
             # not lvalue-connectable (or not copyable) in this library version
             opts = [o for o in opts if o[0] not in ("K_ANY", "K_WHEN_ANY", "K_LVWSS", "K_LVWST", "K_LVW", "K_ALLOCATE", "K_LET_ERROR", "K_LET_DONE", "K_UPON_DONE")]
@@ -120,6 +122,26 @@ class Gen:
         if k == "K_V2E": return Node(k, E, [sub(V)])
         if k in ("K_UNSTOPPABLE", "K_MATDEMAT", "K_ANY", "K_ALLOCATE", "K_WITH_QUERY", "K_LVWST"):
             return Node(k, vt, [sub(vt)])
+        if k in ("K_NEST", "K_NEST_CLOSED"):
+            # nest_sender's const& connect overload is probed during overload resolution and instantiates the child's
+            # const& connect, which is a hard error for the adaptors that are not lvalue-connectable
+            c1 = dict(ctx); c1["copyable"] = True
+            return Node(k, vt, [self.gen(vt, d, c1)])
+        if k == "K_WITH_ALLOC":
+            return Node(k, vt, [sub(vt)], a=r.randrange(2, 4))
+        if k == "K_WAR":
+            # when_all_range takes a vector of senders of ONE type: n harness leaves, all wrapped the same way
+            n = r.choice([0, 1, 2, 2, 3, 3])
+            wrap = r.choice([None, None, "K_THEN", "K_UNSTOPPABLE", "K_MATDEMAT", "K_WITH_QUERY", "K_JUST"])
+            if getattr(self, "war_flavour", 0):
+                wrap = self.war_flavour; n = max(n, 1)
+            kids = []
+            for _ in range(n):
+                if wrap == "K_JUST":
+                    kids.append(Node("K_JUST", V)); continue
+                lf = Node("K_LEAF", V, a=self.leaves); self.leaves += 1
+                kids.append(lf if wrap is None else Node(wrap, V, [lf]))
+            return Node(k, V, kids, a=0 if wrap is None else KINDS.index(wrap))
         if k == "K_LET_VALUE":
             n = Node(k, vt)
             c2 = dict(ctx); c2["let"] = ctx.get("let", []) + [n]
@@ -228,6 +250,12 @@ def cpp(n):
     if k == "K_DEFER": return "unifex::defer([=]() mutable { E::call(%d); return %s; })" % (nid, c[0])
     if k == "K_INTO_VARIANT": return "unifex::then(unifex::into_variant(%s), e.ivfn(%d))" % (c[0], nid)
     if k == "K_WITH_QUERY": return "unifex::with_query_value(%s, sr::verif_tag, sr::QVal(%d))" % (c[0], nid)
+    if k == "K_WITH_ALLOC": return "unifex::with_allocator(%s, e.alloc(%d))" % (c[0], n.a)
+    if k == "K_NEST": return "unifex::nest(%s, e.scope())" % c[0]
+    if k == "K_NEST_CLOSED": return "unifex::nest(%s, e.closed_scope())" % c[0]
+    if k == "K_WAR":
+        if not c: return "unifex::then(unifex::when_all_range(e.vec0()), e.warfn(%d))" % nid
+        return "unifex::then(unifex::when_all_range(e.vec(%s)), e.warfn(%d))" % (", ".join(c), nid)
     raise AssertionError(k)
 
 
@@ -283,14 +311,19 @@ def main():
         shapes.append((root, order, text, g.leaves))
     # targeted shapes: each adaptor that can be re-connected (lvalue connect) directly below retry_when / repeat_effect_until
     relaunchable_v = ["K_THEN", "K_E2V", "K_UPON_ERROR", "K_LET_VALUE", "K_FINALLY", "K_VIA", "K_ON", "K_SEQUENCE", "K_WHEN_ALL", "K_STOP_WHEN",
-                      "K_UNSTOPPABLE", "K_MATDEMAT", "K_DONE_AS_OPT", "K_RETRY_WHEN", "K_DEFER", "K_INTO_VARIANT", "K_WITH_QUERY"]
-    relaunchable_e = ["K_V2E", "K_LET_VALUE", "K_FINALLY", "K_VIA", "K_ON", "K_SEQUENCE", "K_STOP_WHEN", "K_UNSTOPPABLE", "K_MATDEMAT", "K_REPEAT", "K_DEFER", "K_WITH_QUERY"]
-    for root_kind, vt0, kinds in (() if a.no_targeted else (("K_RETRY_WHEN", V, relaunchable_v), ("K_REPEAT", E, relaunchable_e))):
-        for k in kinds:
+                      "K_UNSTOPPABLE", "K_MATDEMAT", "K_DONE_AS_OPT", "K_RETRY_WHEN", "K_DEFER", "K_INTO_VARIANT", "K_WITH_QUERY", "K_WAR", "K_NEST",
+                      "K_WITH_ALLOC"]
+    relaunchable_e = ["K_V2E", "K_LET_VALUE", "K_FINALLY", "K_VIA", "K_ON", "K_SEQUENCE", "K_STOP_WHEN", "K_UNSTOPPABLE", "K_MATDEMAT", "K_REPEAT", "K_DEFER", "K_WITH_QUERY", "K_NEST",
+                      "K_WITH_ALLOC"]
+    relaunch_list = [] if a.no_targeted else [("K_RETRY_WHEN", V, k, None) for k in relaunchable_v] + [("K_REPEAT", E, k, None) for k in relaunchable_e] + \
+        [("K_RETRY_WHEN", V, "K_WAR", fl) for fl in ("K_WITH_QUERY", "K_JUST", "K_THEN")]   # element senders that are sensitive to being moved from
+    for root_kind, vt0, k, flavour in relaunch_list:
+        if True:
             if allowed is not None and (k not in allowed or root_kind not in allowed):
                 continue
             for attempt in range(30):
                 g = Gen(rng, 3, 6, allowed)
+                g.war_flavour = flavour
                 g.force = {0: root_kind, 1: k}
                 root = g.gen(vt0, 0, {})
                 if root.kind != root_kind or not root.children or root.children[0].kind != k or g.leaves == 0:
